@@ -14,7 +14,7 @@ from mc.run import Stats, explore
 ASSUME = [
     "rewrites: consistent renaming (3 adversarial name sets), relative <-> absolute dependency path per edge, depends <-> precedes per edge (options carried over), "
     "shift reference <-> inline hours per resource, comment / blank-line insertion at every token boundary (#, //, /* */ incl. comments containing braces and quotes), "
-    "extraction of each attribute line into a macro (plain, and with ${1} argument where the line has a value)",
+    "extraction of each attribute line into a macro (plain, with ${1} argument where the line has a value, and with the value as the 10th / 12th of twelve arguments)",
     "bases: nested task trees of the C04 shapes with 1-3 edges (container-level and leaf-level), gaps, ASAP and ALAP, plus a two-resource base with a shift, leaves and limits and a base whose calendars sit on resource groups",
     "token boundaries are those of the grammar's terminals (numbers with unit suffix, dates, times, '!'-references and strings are single tokens)",
 ]
@@ -268,6 +268,12 @@ def text_rewrites(text, tier, dense):
         if len(parts) == 2 and " " not in parts[1] and "{" not in parts[1]:
             new = lines[:li] + [line.replace(st, "${" + name + " " + parts[1] + "}")] + lines[li + 1:]
             yield f"macro-arg line {li}", f"macro {name} [ {parts[0]} ${{1}} ]\n" + "\n".join(new)
+            # the value passed as the 10th / 12th of twelve arguments (two-digit placeholders)
+            for pos in (10, 12):
+                args = ["x%d" % j for j in range(1, 13)]
+                args[pos - 1] = parts[1]
+                new = lines[:li] + [line.replace(st, "${" + name + " " + " ".join(args) + "}")] + lines[li + 1:]
+                yield f"macro-arg{pos} line {li}", f"macro {name} [ {parts[0]} ${{{pos}}} ]\n" + "\n".join(new)
     # comments of every style inside a macro body (body kept multi-line)
     mb = re.search(r'(task \w+ "\w+" \{\n)((?:\s+[^{}\n]+\n){2,})(\s*\})', text)
     if mb:
